@@ -876,7 +876,10 @@ def replay(ctx, path):
             group_suite(ctx, 'replay', lines, res)
         else: eval_suite(ctx, 'replay', [json.dumps(c, ensure_ascii=False)], res)
     elif mode == 'ast': eval_suite(ctx, 'replay', [json.dumps({**c, 'tdoc': tag(c['doc'])}, ensure_ascii=False)], res, mode='ast')
-    elif mode == 'generic': generic_suite(ctx, 'replay', [json.dumps({**c, 'tdoc': tag(c['doc'])}, ensure_ascii=False)], res)
+    elif mode == 'generic':
+        # a case reported by the reordered-members run carries `rev`: replay that run only (the suite derives the reordered case itself)
+        base = {k: v for k, v in c.items() if k != 'rev'}
+        generic_suite(ctx, 'replay', [json.dumps({**base, 'tdoc': tag(base['doc'])}, ensure_ascii=False)], res, only_rev=bool(c.get('rev')))
     elif mode == 'parse':
         if isinstance(c, dict): ladder_suite(ctx, 'replay', [json.dumps(c)], res)
         else: parse_suite(ctx, 'replay', [c], res)
